@@ -103,7 +103,7 @@ fn measure_bits(kind: BitsKind, path: u8, bits: &[bool], extra_capacity: usize) 
         }
         BitsVal::Bvm(m)
     } else {
-        let (bh, wh) = match path % 8 {
+        let (bh, wh) = match path % 9 {
             0 => (BvHow::Bools, WrapHow::New),
             1 => (BvHow::Pushes, WrapHow::From),
             2 => (BvHow::Bools, WrapHow::Collect),
@@ -112,7 +112,9 @@ fn measure_bits(kind: BitsKind, path: u8, bits: &[bool], extra_capacity: usize) 
             4 => (BvHow::BoolsLoose(path / 8), WrapHow::New),
             5 => (BvHow::BoolsLoose(64 + path / 8), WrapHow::Collect),
             6 => (BvHow::ExtendPieces(path / 8), WrapHow::From),
-            _ => (BvHow::BoolsLoose(128 + path / 8), WrapHow::From),
+            7 => (BvHow::BoolsLoose(128 + path / 8), WrapHow::From),
+            // a vector of zeros whose ones are set afterwards
+            _ => (BvHow::ZerosThenSet, WrapHow::New),
         };
         BitsVal::build(kind, bh, wh, bits)
     };
